@@ -41,6 +41,8 @@ def tasks(tier, seed):
     P += families.select(dg, 45 if tier == "quick" else 900, seed)
     P += families.layout_family()
     P += families.corpus(["lorentz.ode", "fitzhughnagumo.ode"] if tier == "quick" else None)
+    from .. import gen
+    P += gen.programs(tier, seed, 100, 1000, "std")
     backends = ["numpy", "jax", "c"]
     out = []
     from . import c13
